@@ -97,7 +97,10 @@ impl PendingEvents {
     pub fn cancel_timer(&mut self, proc: String, timer: String) {
         let id = self.timer_mapping.remove(&(proc, timer));
         if let Some(id) = id {
-            self.pop(id);
+            // the mapping is not updated when a timer fires, so it may refer to an event that is gone
+            if self.events.contains_key(&id) {
+                self.pop(id);
+            }
         }
     }
 
